@@ -99,7 +99,9 @@ def gen_net(rng, opts=None):
     for k in range(rng.randint(1, o.get("maxframes", 3))):
         ext = o.get("ext", True) and rng.random() < 0.35
         while True:
-            arbid = rng.randrange(1, 1 << 29) if ext else rng.randrange(1, 1 << 11)
+            arbid = rng.randrange(0, 1 << 29) if ext else rng.randrange(0, 1 << 11)
+            if rng.random() < 0.06:
+                arbid = rng.choice([0, 0, (1 << 29) - 1 if ext else (1 << 11) - 1])     # boundary identifiers
             if arbid not in ids:
                 ids.add(arbid)
                 break
